@@ -26,6 +26,26 @@ pub fn is_closed(src: &str, ex: &Exec) -> bool {
         return false;
     }
     let last = n - 2;
+    // the look-behind register (last default-channel token) must read as at the start of a
+    // program: nothing, or a ';'
+    let last_default = v.toks[..n - 1]
+        .iter()
+        .rev()
+        .find(|t| t.ch == sas_lexer::TokenChannel::DEFAULT);
+    if last_default.is_some_and(|t| t.ty != TokenType::SEMI) {
+        return false;
+    }
+    // a ';' that merely stands in for the terminator of an unterminated datalines block is
+    // not a statement end
+    // (the datalines4 scanner decides this by looking at how much text is left, i.e. it depends
+    // on the end of input: any prefix with such a block is not closed)
+    if res
+        .errors
+        .iter()
+        .any(|e| e.error_kind() == sas_lexer::error::ErrorKind::UnterminatedDatalines)
+    {
+        return false;
+    }
     let t = v.toks[last];
     let text = v.text(last);
     if t.b1 != src.len() {
